@@ -133,8 +133,15 @@ fn c06_case(seed: u64, index: u64, rep: &mut Report) {
             if !del_a.iter().all(|d| del_b.contains(d) || !ids_b.contains(d)) { fails.push(json!({"class": "deletions-not-transferred", "ctx": ctx})); }
             // idempotent: the same update again changes nothing
             let d1 = idump(&bb.doc);
+            let pending_before = bb.doc.transact().has_missing_updates();
             let _ = if v2 { bb.apply_v2(&u) } else { bb.apply_v1(&u) };
-            if idump(&bb.doc) != d1 || bb.doc.transact().state_vector() != sv_b1 { fails.push(json!({"class": "reapply-changed-state", "ctx": ctx})); }
+            // a receiver with a stash: the second copy of the update can free a block that sat in the stash behind another block of
+            // its client although its own dependencies had arrived with the first copy (the known finding); then the only change is
+            // that ids the sender had integrated are integrated now
+            let (ids_b2, _) = idsets(&bb.doc);
+            let stash_progress = pending_before && ids_b.is_subset(&ids_b2) && ids_b2 != ids_b;
+            if stash_progress { fails.push(json!({"class": "integrated-content-stashed-behind-a-missing-dependency", "ctx": ctx, "what": "applying the same update a second time integrated more of it", "freed": ids_b2.difference(&ids_b).cloned().collect::<Vec<_>>()})); continue; }
+            if idump(&bb.doc) != d1 || bb.doc.transact().state_vector() != sv_b1 { fails.push(json!({"class": "reapply-changed-state", "ctx": ctx, "before": d1, "after": idump(&bb.doc), "sv_before": format!("{:?}", sv_b1), "sv_after": format!("{:?}", bb.doc.transact().state_vector()), "pending_after": bb.doc.transact().has_missing_updates(), "receiver_history_v1": h.applied[b].iter().map(|x| hex(x)).collect::<Vec<_>>()})); }
             // an update encoded against the receiver's own current state vector changes nothing
             let own = { let t = bb.doc.transact(); if v2 { t.encode_diff_v2(&sv_b1) } else { t.encode_diff_v1(&sv_b1) } };
             let _ = if v2 { bb.apply_v2(&own) } else { bb.apply_v1(&own) };
@@ -216,6 +223,25 @@ fn c08_case(seed: u64, index: u64, md: &mut Model, rep: &mut Report) {
         if !h.svs[(i + 1) % n].is_empty() { let pv: &Vec<u8> = r.pick(h.svs[(i + 1) % n].as_slice()); let sv = StateVector::decode_v1(pv.as_slice()).unwrap_or_default(); pool1.push(t.encode_diff_v1(&sv)); pool2.push(t.encode_diff_v2(&sv)); }
     }
     if pool1.len() < 2 { rep.evaluations += 1; return; }
+    // one merge of many arguments (22..40, with repetitions; GC and non-GC views of the same ids side by side): the decoder order of
+    // merge_updates is sorted with slice::sort_by, which checks the comparator from 21 elements on
+    {
+        let k = r.range(22, 40) as usize;
+        let us: Vec<Vec<u8>> = (0..k).map(|_| r.pick(&pool1).clone()).collect();
+        match catch(|| yrs::merge_updates_v1(&us)) {
+            Ok(Ok(merged)) => {
+                let m = md.ask(&format!("MRG merge {}", us.iter().map(|u| hex(u)).collect::<Vec<_>>().join(" ")));
+                rep.count("c08_big_merges_compared_with_the_transcription");
+                let mut it = m.split(' ');
+                // (byte for byte, or - the implementation writes the entries of an Any map in hash order - block for block as the model decodes both)
+                match (it.next(), it.next()) { (Some("ok"), Some(h)) if *h == hex(&merged) || md.ask(&format!("DEC update {}", h)) == md.ask(&format!("DEC update {}", hex(&merged))) => {}, _ => disag.push(json!({"kind": "merge_updates transcription (many arguments)", "model": m.chars().take(400).collect::<String>(), "impl": hex(&merged), "arguments": k})) }
+                let (one, mrg) = (apply_all(800, &us, false), apply_all(800, &[merged.clone()], false));
+                if !same_docs(&one, &mrg) { let lagging = one.doc.transact().has_missing_updates() || mrg.doc.transact().has_missing_updates(); complete(&h, &one, &mrg); if !lagging || !same_docs(&one, &mrg) { fails.push(json!({"class": "merge-differs-from-sequential-apply", "ctx": {"arguments": k}, "merged_update": hex(&merged)})); } }
+            }
+            Ok(Err(e)) => fails.push(json!({"class": "merge-error", "error": format!("{e}"), "arguments": k})),
+            Err(p) => fails.push(json!({"class": "merge-panic", "error": p, "arguments": k, "inputs": us.iter().map(|u| hex(u)).collect::<Vec<_>>()})),
+        }
+    }
     let gaps = h.reps.iter().any(|x| has_gap(&x.doc));
     for trial in 0..4 {
         let k = r.range(2, (pool1.len() as u64).min(5)) as usize;
@@ -256,6 +282,17 @@ fn c08_case(seed: u64, index: u64, md: &mut Model, rep: &mut Report) {
                         if !lag || !same_docs(&nd, &m2) { fails.push(json!({"class": "merge-order-or-nesting-matters", "ctx": ctx, "merged": hex(&merged), "nested": hex(&nm)})); } else { rep.count("c08_merge_stash_lag_only"); } } }
                 Ok(Err(e)) => fails.push(json!({"class": "merge-error", "error": e, "ctx": ctx})),
                 Err(p) => fails.push(json!({"class": "merge-panic", "error": p, "ctx": ctx})),
+            }
+            // the transcription of Update::merge_updates (Crdt/Merge.v) on the same arguments writes the same bytes; whether the
+            // arguments satisfy the hypothesis of its theorems (views of one history: mrg_wf / mrg_wf_norm) is recorded
+            if !v2 {
+                let m = md.ask(&format!("MRG merge {}", us.iter().map(|u| hex(u)).collect::<Vec<_>>().join(" ")));
+                rep.count("c08_merges_compared_with_the_transcription");
+                let mut it = m.split(' ');
+                match (it.next(), it.next()) {
+                    (Some("ok"), Some(h)) if *h == hex(&merged) || md.ask(&format!("DEC update {}", h)) == md.ask(&format!("DEC update {}", hex(&merged))) => { if m.contains("wfn=1") { rep.count("c08_merge_arguments_satisfy_mrg_wf_norm"); } if m.contains("wf=1") { rep.count("c08_merge_arguments_satisfy_mrg_wf"); } }
+                    _ => disag.push(json!({"kind": "merge_updates transcription", "ctx": ctx, "model": m, "impl": hex(&merged), "inputs": us.iter().map(|u| hex(u)).collect::<Vec<_>>()})),
+                }
             }
             // the model decodes the merged update (v1) and must reach the same state as from the inputs
             if !v2 && !cfgs.iter().any(|c| c.gc) {
